@@ -298,9 +298,39 @@ def initial_ss_unperturbed_block():
     return None
 
 
+def options_reach_blocks_inside_newton_loop():
+    """per-block options (here: the iteration limit of a nested solved block) must be honoured by solve_impulse_nonlinear exactly as by impulse_nonlinear:
+    with maxit=1 for the inner block the very first model evaluation (U = 0) must fail with the inner block's 'after 1' error in both"""
+    m = M.load()
+    nm, inner = m.nested()
+    ssn = nm.solve_steady_state(dict(m.CALIB), {'p': (-4.0, 4.0)}, {'res_p': 0.0}, solver='brentq')
+    T = 12
+    sh = {'z': 0.05 * 0.6 ** np.arange(T)}
+    opts = {inner.name: dict(maxit=1, verbose=False, tol=1e-9), nm.name: dict(verbose=False)}
+    inp = dict(kind='per-block-options', model='nested', options={inner.name: dict(maxit=1)})
+    def outcome(f):
+        try:
+            f()
+            return 'returned'
+        except ValueError as ex:
+            return str(ex)
+    direct = outcome(lambda: nm.impulse_nonlinear(ssn, {**sh, 'p': np.zeros(T)}, options=opts))
+    solved = outcome(lambda: nm.solve_impulse_nonlinear(ssn, ['p'], ['res_p'], sh, options=opts))
+    if 'after 1 ' not in direct:
+        return dict(what='impulse_nonlinear does not honour the iteration limit given to a nested solved block through options', input=inp, observed=direct, signature=dict(op='per-block-options', where='impulse_nonlinear'))
+    if 'after 1 ' not in solved:
+        return dict(what='solve_impulse_nonlinear loses per-block options inside its Newton loop: the nested solved block did not see maxit=1 (impulse_nonlinear with the same options does)',
+                    input=inp, observed=solved, expected=direct, signature=dict(op='per-block-options', where='solve_impulse_nonlinear'))
+    return None
+
+
 def oracle(ctx, hints, broken):
     try:
         viol, n = check(ctx['rng'])
+        vopt = options_reach_blocks_inside_newton_loop()
+        n += 1
+        if vopt:
+            viol.append(vopt)
         v24 = initial_ss_unperturbed_block()
         n += 1
         if v24:
